@@ -429,30 +429,34 @@ func (e StdEng) Diag(t Tensor) (retVal Tensor, err error) {
 	b := a.Clone().(DenseTensor)
 	b.Zero()
 
+	// the i-th diagonal value becomes the i-th element of the result in row-major reading, whatever its data order
+	bstrides := b.Strides()
+	at := func(i int) int { return i/c*bstrides[0] + i%c*bstrides[1] }
+
 	switch a.rtype().Size() {
 	case 1:
 		bdata := b.hdr().Uint8s()
 		adata := a.hdr().Uint8s()
 		for i := 0; i < m; i++ {
-			bdata[i] = adata[i*stride]
+			bdata[at(i)] = adata[i*stride]
 		}
 	case 2:
 		bdata := b.hdr().Uint16s()
 		adata := a.hdr().Uint16s()
 		for i := 0; i < m; i++ {
-			bdata[i] = adata[i*stride]
+			bdata[at(i)] = adata[i*stride]
 		}
 	case 4:
 		bdata := b.hdr().Uint32s()
 		adata := a.hdr().Uint32s()
 		for i := 0; i < m; i++ {
-			bdata[i] = adata[i*stride]
+			bdata[at(i)] = adata[i*stride]
 		}
 	case 8:
 		bdata := b.hdr().Uint64s()
 		adata := a.hdr().Uint64s()
 		for i := 0; i < m; i++ {
-			bdata[i] = adata[i*stride]
+			bdata[at(i)] = adata[i*stride]
 		}
 	default:
 		return nil, errors.Errorf(typeNYI, "Arbitrary sized diag", t)
